@@ -171,6 +171,11 @@ func rsJudgeTrace(trace string, startUnix, endUnix int64) rsVerdict {
 		case "F":
 			// an injected write fault: the acknowledgement naming these ids could not be written; the client
 			// is not asked to repeat it (the property's histories have no write errors), everything else holds
+			if p[1] == "s" && len(p) >= 3 {
+				// the session store refused this salt: the client could not have written it
+				ns, _ := strconv.ParseInt(p[2], 10, 64)
+				storedSalts = append(storedSalts, ns)
+			}
 			if p[1] == "k" && len(p) >= 3 {
 				for _, id := range strings.Split(p[2], "+") {
 					u, _ := strconv.ParseUint(id, 10, 64)
